@@ -97,6 +97,8 @@ def edit_family(run, replay):
     edit_random(run, prop, nhist, steps, maxtips)
     if prop in CLI_CASES:
         cli_stage(run, prop, "TraceEdit.tla", TRACE_CFG % ('"%s"' % prop, "TRUE"))
+    if prop in STATS_CASES:
+        stats_stage(run, prop)
     return vk.finish(run,
                      rule="model: every transition of the bounded TreeOps model; real code: every TLC-emitted case replayed plus "
                           "seeded random histories of public editing calls on random multifurcating trees; each recorded call is one "
@@ -104,6 +106,38 @@ def edit_family(run, replay):
                      assumptions=["gotree getters (Root, Neigh, Edges, Left, Right, Name, Comments, Length, Support, PValue) are trusted",
                                   "lengths/supports are dyadic so that float arithmetic is exact and equals the model's integer arithmetic",
                                   "TLC, CommunityModules, the Go projection and the reference Newick reader are trusted"])
+
+
+STATS_CASES = {"C03": (160, 3000), "C04": (160, 3000)}
+
+
+def stats_stage(run, prop):
+    """`gotree stats`, `stats edges|splits|nodes|tips` on files of random trees; the printed tables judged by StatsProps.tla."""
+    gotree = run.build_gotree()
+    q, t = STATS_CASES[prop]
+    n = q if run.tier == "quick" else t
+    res = sharded(run, "statscli", prop, n, "TraceCalc.tla", CALC_CFG % ('"%s"' % prop),
+                  extra_args=["--prop", prop, "--gotree", gotree, "--maxtips", "10" if run.tier == "quick" else "14"], tag="stats", timeout=3000)
+    run.extra["stats_commands_run"] = sum(r["summary"].get("commands_run", 0) for r in res)
+    return res
+
+
+def is_stats_case(hdr):
+    parts = hdr.get("case", "").split("-")
+    return len(parts) == 3 and parts[2][:1] == "t" and parts[2][1:].isdigit() and "model_case" not in hdr
+
+
+def stats_replay(run, hdr):
+    parts = hdr.get("case", "").split("-")
+    seed, k = int(parts[1][1:]), int(parts[2][1:])
+    gotree = run.build_gotree()
+    p = os.path.join(run.work, "replay.ndjson")
+    vk.run_driver(run, ["statscli", "--prop", run.prop, "--gotree", gotree, "--seed", str(seed), "--from", str(k), "--to", str(k + 1),
+                        "--maxtips", "10" if hdr.get("tier", "quick") == "quick" else "14", "--out", p], p)
+    r = vk.validate_trace(run, p, "TraceCalc.tla", CALC_CFG % ('"%s"' % run.prop))
+    collect(run, [r])
+    run.traces = 1
+    return vk.finish(run, rule="replay of one recorded `gotree stats` case on the current /repo")
 
 
 def cli_replay(run, hdr, spec, cfg):
@@ -309,6 +343,7 @@ def index_family(run, replay):
     q, t, steps, mq, mt = EDIT_BOUNDS["C04"]
     nhist, maxtips = (q, mq) if run.tier == "quick" else (t, mt)
     edit_random(run, "C04", nhist, steps, maxtips)
+    stats_stage(run, "C04")
     return vk.finish(run,
                      rule="model: the bucket structure of hashmap.HashMap/EdgeIndex (EdgeIndex.tla) for every initial capacity and load "
                           "factor of the bound and every operation sequence, refinement invariant ActsLikeMap; every transition replayed on "
@@ -1102,6 +1137,10 @@ def _wrap_replay(fn):
                 run.build_harness()
                 run.replay_of = replay
                 return replay_model_case(run, hdr)
+            if is_stats_case(hdr):
+                run.build_harness()
+                run.replay_of = replay
+                return stats_replay(run, hdr)
         return fn(run, replay)
     return g
 
